@@ -495,6 +495,60 @@ def section_nh_finding():
     check_problem("nh_finding", pb, 2, label="F-NH witness: H0=diag(0,1,2.5,4), two blocks, hermitian=False")
 
 
+def section_projector():
+    """C17: ComplementProjector against the dense matrix 1 - R L^H under every operator operation."""
+    global cases
+    from pymablock.linalg import ComplementProjector
+    from scipy.sparse.linalg import aslinearoperator
+    rng = np.random.default_rng(3)
+    n, k = 6, 2
+
+    def rnd(shape, cplx):
+        return rng.normal(size=shape) + (1j * rng.normal(size=shape) if cplx else 0)
+    for cR, cL, biorth in ((False, False, False), (True, True, False), (False, False, True), (True, True, True), (False, True, True), (True, False, True)):
+        R = rnd((n, k), cR)
+        L = rnd((n, k), cL) if biorth else None
+        P = ComplementProjector(R, L)
+        D = np.eye(n) - R @ (R if L is None else L).conj().T
+        x1, xm = rnd((n,), True), rnd((n, 3), True)
+        Asp = sparse.csr_array(rnd((n, n), True))
+        Ad = rnd((n, n), True)
+        views = {"P": (P, D), "P.H": (P.H, D.conj().T), "P.T": (P.T, D.T), "conj(P)": (P.conjugate(), D.conj()),
+                 "P.H.T": (P.H.T, D.conj()), "P.T.H": (P.T.H, D.conj()), "P.T.T": (P.T.T, D), "P.H.conjugate()": (P.H.conjugate(), D.T),
+                 "conj(P).T": (P.conjugate().T, D.conj().T)}
+        for nm, (op, mat) in views.items():
+            cases += 1
+            checks = {
+                "op @ vec": (op @ x1, mat @ x1), "op @ mat": (op @ xm, mat @ xm), "op.matvec": (op.matvec(x1), mat @ x1),
+                "op.rmatvec": (op.rmatvec(x1), mat.conj().T @ x1), "op.rmatmat": (op.rmatmat(xm), mat.conj().T @ xm),
+                "mat @ op": (xm.T @ op, xm.T @ mat),
+                "(A_sparse @ op) @ v": ((aslinearoperator(Asp) @ op) @ x1, Asp @ (mat @ x1)),
+                "(op @ A_dense).H @ v": ((op @ aslinearoperator(Ad)).H @ x1, (mat @ Ad).conj().T @ x1),
+                "v @ (A @ op)": (xm.T @ (aslinearoperator(Ad) @ op), xm.T @ (Ad @ mat)),
+                "(op + op) @ v": ((op + op) @ x1, 2 * mat @ x1),
+            }
+            for cn, (got, want) in checks.items():
+                try:
+                    if not np.allclose(np.asarray(got), want, atol=1e-9):
+                        fail("projector", "operator result differs from the dense matrix 1 - R L^H", view=nm, check=cn, complexR=cR, complexL=cL, biorthogonal=biorth)
+                except Exception as e:
+                    fail("projector", "operator operation raised", view=nm, check=cn, error=repr(e)[:200])
+            if op.shape != (n, n) or np.result_type(op.dtype, D.dtype) != D.dtype:
+                fail("projector", "inconsistent shape or dtype", view=nm, shape=op.shape, dtype=str(op.dtype))
+    # idempotence when L^H R = 1
+    cases += 1
+    R = np.linalg.qr(rnd((n, k), True))[0]
+    P = ComplementProjector(R)
+    x = rnd((n,), True)
+    if not np.allclose(P @ (P @ x), P @ x):
+        fail("projector", "not idempotent for orthonormal vectors")
+    Rb = rnd((n, k), True)
+    Lb = np.linalg.pinv(Rb).conj().T
+    Pb = ComplementProjector(Rb, Lb)
+    if not np.allclose(Pb @ (Pb @ x), Pb @ x):
+        fail("projector", "not idempotent for biorthonormal vectors")
+
+
 for name in sections:
     fn = globals().get("section_" + name)
     if fn is None:
